@@ -119,7 +119,10 @@ func kernelProgram(full, compact bool) *idl.Program {
 // keywords / predeclared names and names equal to generated identifiers.
 var nameAlphabet = []string{"a", "A", "_a", "a_", "a_b", "a__b", "aB", "a1_2", "url", "Url_id", "user_id", "ID", "New", "NewFoo", "FooArgs", "FooResult", "Foo_args", "foo_result",
 	"type", "func", "range", "chan", "go", "select", "interface", "default", "package", "import", "var", "error", "len", "nil", "iota", "int32", "any", "append", "new",
-	"Read", "Write", "String", "Error", "GetA", "IsSetA", "SetA", "ReadField1", "writeField1", "Field1DeepEqual", "DeepEqual", "InitDefault", "p", "err", "ctx", "r", "_result", "_args", "fieldId", "fieldTypeId", "success", "Success", "iprot", "oprot", "thrift", "fmt", "context", "v", "src", "issetA", "x1", "X_1"}
+	"Read", "Write", "String", "Error", "GetA", "IsSetA", "SetA", "ReadField1", "writeField1", "Field1DeepEqual", "DeepEqual", "InitDefault", "p", "err", "ctx", "r", "_result", "_args", "fieldId", "fieldTypeId", "success", "Success", "iprot", "oprot", "thrift", "fmt", "context", "v", "src", "issetA", "x1", "X_1",
+	// every Go keyword, lower case and capitalised (the generator lower-cases argument names)
+	"map", "struct", "switch", "case", "for", "if", "else", "return", "break", "const", "defer", "goto", "continue", "fallthrough",
+	"Type", "Func", "Range", "Chan", "Go", "Select", "Interface", "Default", "Package", "Import", "Var", "Map", "Struct", "Switch", "Case", "For", "If", "Else", "Return", "Break", "Const", "Defer", "Goto", "Continue", "Fallthrough", "Nil", "TYPE", "Error_", "String_"}
 
 type prog struct {
 	family, variant string
